@@ -1,6 +1,6 @@
 import Model.Ring
 import Proofs.C16Ring
-/-! helper lemmas: the diff loop of refreshRing (loop invariant on the id sets) -/
+/-! helper lemmas: the diff part of refreshRing (repaired: removals first, then additions) — the id sets and the stored objects -/
 namespace C16
 open Ring
 
@@ -36,155 +36,14 @@ theorem addIfMissing_existed (r : Ring.Ring) (h : RHost) :
     rw [lookup_eq_none] at hn
     simp [hn]
 
-/-- loop invariant of the diff loop: `acc` = ids accepted so far -/
-structure LoopInv (r0 : Ring.Ring) (acc : List Nat) (st : Ring.Ring × List (Nat × RHost) × Effects) : Prop where
-  ids : ∀ id, id ∈ keys st.1.byId ↔ id ∈ keys r0.byId ∨ id ∈ acc
-  prev : ∀ id, id ∈ keys st.2.1 ↔ id ∈ keys r0.byId ∧ id ∉ acc
-  wf : WF st.1.byId
-  wfp : WF st.2.1
-
-theorem step_inv (filter : RHost → Bool) (r0 : Ring.Ring) (acc : List Nat)
-    (st : Ring.Ring × List (Nat × RHost) × Effects) (h : RHost) (hi : LoopInv r0 acc st)
-    (hf : filter h = false) (hnew : h.id ∉ acc) :
-    (refreshStep filter st h).2 = .ok ∧ LoopInv r0 (acc ++ [h.id]) (refreshStep filter st h).1 := by
-  obtain ⟨r, prev, eff⟩ := st
-  unfold refreshStep
-  simp only [hf, Bool.false_eq_true, ↓reduceIte]
-  have hex := addIfMissing_existed r h
-  have hids := ids_addIfMissing r h
-  have hwf := WF_addIfMissing r h hi.wf
-  generalize r.addIfMissing h = res at hex hids hwf
-  obtain ⟨r1, e1, ex⟩ := res
-  dsimp only at hex hids hwf
-  cases ex with
-  | false =>
-    simp only [Bool.false_eq_true, false_iff] at hex
-    refine ⟨rfl, ?_, ?_, hwf, WF_erase _ _ hi.wfp⟩
-    · intro id
-      dsimp only
-      rw [hids, hi.ids, List.mem_append, List.mem_singleton]
-      constructor
-      · rintro (h1 | h1 | h1)
-        · exact Or.inr (Or.inr h1)
-        · exact Or.inl h1
-        · exact Or.inr (Or.inl h1)
-      · rintro (h1 | h1 | h1)
-        · exact Or.inr (Or.inl h1)
-        · exact Or.inr (Or.inr h1)
-        · exact Or.inl h1
-    · intro id
-      dsimp only
-      rw [mem_keys_erase, hi.prev, List.mem_append, List.mem_singleton]
-      constructor
-      · rintro ⟨⟨h1, h2⟩, h3⟩; exact ⟨h1, fun hh => hh.elim h2 h3⟩
-      · rintro ⟨h1, h2⟩; exact ⟨⟨h1, fun hh => h2 (Or.inl hh)⟩, fun hh => h2 (Or.inr hh)⟩
-  | true =>
-    simp only [true_iff] at hex
-    have hin0 : h.id ∈ keys r0.byId := by
-      rcases (hi.ids h.id).mp hex with h1 | h1
-      · exact h1
-      · exact absurd h1 hnew
-    have hinp : h.id ∈ keys prev := (hi.prev h.id).mpr ⟨hin0, hnew⟩
-    simp only
-    cases hl : lookup prev h.id with
-    | none => rw [lookup_eq_none] at hl; exact absurd hinp hl
-    | some existing =>
-      have hexid : existing.id = h.id := hi.wfp _ (lookup_some_mem _ _ _ hl)
-      simp only
-      have accIds : ∀ id, (id ∈ keys r.byId ↔ id ∈ keys r0.byId ∨ id ∈ acc ++ [h.id]) := by
-        intro id
-        rw [hi.ids, List.mem_append, List.mem_singleton]
-        constructor
-        · rintro (h1 | h1)
-          · exact Or.inl h1
-          · exact Or.inr (Or.inl h1)
-        · rintro (h1 | h1 | h1)
-          · exact Or.inl h1
-          · exact Or.inr h1
-          · subst h1; exact Or.inl hin0
-      have prevIds : ∀ id, id ∈ keys (erase prev h.id) ↔ id ∈ keys r0.byId ∧ id ∉ acc ++ [h.id] := by
-        intro id
-        rw [mem_keys_erase, hi.prev, List.mem_append, List.mem_singleton]
-        constructor
-        · rintro ⟨⟨h1, h2⟩, h3⟩; exact ⟨h1, fun hh => hh.elim h2 h3⟩
-        · rintro ⟨h1, h2⟩; exact ⟨⟨h1, fun hh => h2 (Or.inl hh)⟩, fun hh => h2 (Or.inr hh)⟩
-      split
-      · exact ⟨rfl, accIds, prevIds, hi.wf, WF_erase _ _ hi.wfp⟩
-      · -- address changed: remove the old object, add the new one
-        have hrm := ids_remove r existing.id
-        have hwr := WF_remove r existing.id hi.wf
-        generalize (r.remove existing.id).1 = r2 at hrm hwr
-        have hex2 := addIfMissing_existed r2 h
-        have hids2 := ids_addIfMissing r2 h
-        have hwf2 := WF_addIfMissing r2 h hwr
-        generalize r2.addIfMissing h = res2 at hex2 hids2 hwf2
-        obtain ⟨r3, e3, ex3⟩ := res2
-        dsimp only at hex2 hids2 hwf2
-        cases ex3 with
-        | true =>
-          simp only [true_iff] at hex2
-          rw [hrm, hexid] at hex2
-          exact absurd rfl hex2.2
-        | false =>
-          refine ⟨rfl, ?_, prevIds, hwf2, WF_erase _ _ hi.wfp⟩
-          intro id
-          dsimp only
-          rw [hids2, hrm, hexid, ← accIds]
-          constructor
-          · rintro (h1 | h1)
-            · subst h1; exact hex
-            · exact h1.1
-          · intro h1
-            by_cases e : id = h.id
-            · exact Or.inl e
-            · exact Or.inr ⟨h1, e⟩
-
-theorem step_filtered (filter : RHost → Bool) (st : Ring.Ring × List (Nat × RHost) × Effects) (h : RHost)
-    (hf : filter h = true) : refreshStep filter st h = (st, .ok) := by
-  obtain ⟨r, prev, eff⟩ := st
-  simp [refreshStep, hf]
-
 def acceptedIds (filter : RHost → Bool) (reported : List RHost) : List Nat :=
   (reported.filter (fun h => !filter h)).map (·.id)
 
-theorem loop_inv (filter : RHost → Bool) (r0 : Ring.Ring) (reported : List RHost) :
-    ∀ (acc : List Nat) (st : Ring.Ring × List (Nat × RHost) × Effects), LoopInv r0 acc st →
-      (acceptedIds filter reported).Nodup → (∀ id ∈ acceptedIds filter reported, id ∉ acc) →
-      (refreshLoop filter reported st).2 = .ok ∧
-      LoopInv r0 (acc ++ acceptedIds filter reported) (refreshLoop filter reported st).1 := by
-  induction reported with
-  | nil =>
-    intro acc st hi _ _
-    simp only [acceptedIds, List.filter_nil, List.map_nil, List.append_nil]
-    exact ⟨rfl, hi⟩
-  | cons h t ih =>
-    intro acc st hi hn hd
-    unfold refreshLoop
-    cases hf : filter h with
-    | true =>
-      rw [step_filtered filter st h hf]
-      simp only [if_true]
-      have e : acceptedIds filter (h :: t) = acceptedIds filter t := by simp [acceptedIds, hf]
-      rw [e] at hn hd ⊢
-      exact ih acc st hi hn hd
-    | false =>
-      have e : acceptedIds filter (h :: t) = h.id :: acceptedIds filter t := by simp [acceptedIds, hf]
-      rw [e] at hn hd ⊢
-      rw [List.nodup_cons] at hn
-      have ⟨hok, hi'⟩ := step_inv filter r0 acc st h hi hf (hd h.id List.mem_cons_self)
-      generalize refreshStep filter st h = res at hok hi'
-      obtain ⟨st', res'⟩ := res
-      dsimp only at hok hi' ⊢
-      subst hok
-      simp only [if_true]
-      have := ih (acc ++ [h.id]) st' hi' hn.2 (by
-        intro id hid hacc
-        rw [List.mem_append, List.mem_singleton] at hacc
-        rcases hacc with h1 | h1
-        · exact hd id (List.mem_cons_of_mem _ hid) h1
-        · subst h1; exact hn.1 hid)
-      rw [List.append_assoc] at this
-      exact this
+theorem keys_reportedMap (filter : RHost → Bool) (reported : List RHost) :
+    keys (reportedMap filter reported) = acceptedIds filter reported := by
+  simp [keys, reportedMap, acceptedIds, List.map_map, Function.comp_def]
+
+/-! ### pass 1: the hosts that are gone are removed -/
 
 theorem ids_removeAll (r : Ring.Ring) (prev : List (Nat × RHost)) (hw : WF prev) (id : Nat) :
     id ∈ keys (removeAll r prev).byId ↔ id ∈ keys r.byId ∧ id ∉ keys prev := by
@@ -200,28 +59,192 @@ theorem ids_removeAll (r : Ring.Ring) (prev : List (Nat × RHost)) (hw : WF prev
     · rintro ⟨⟨h1, h2⟩, h3⟩; exact ⟨h1, fun hh => hh.elim h2 h3⟩
     · rintro ⟨h1, h2⟩; exact ⟨⟨h1, fun hh => h2 (Or.inl hh)⟩, fun hh => h2 (Or.inr hh)⟩
 
-theorem refresh_exact (r : Ring.Ring) (hw : WF r.byId) (filter : RHost → Bool) (reported : List RHost)
-    (hn : (acceptedIds filter reported).Nodup) :
-    (r.refresh filter reported).2.1 = .ok ∧
-    ∀ id, id ∈ keys (r.refresh filter reported).1.byId ↔ id ∈ acceptedIds filter reported := by
-  have h0 : LoopInv r [] (r, r.byId, {}) := ⟨by simp, by simp, hw, hw⟩
-  have ⟨hok, hi⟩ := loop_inv filter r reported [] _ h0 hn (by simp)
-  unfold Ring.refresh
-  generalize refreshLoop filter reported (r, r.byId, {}) = res at hok hi
-  obtain ⟨⟨r1, prev, eff⟩, res'⟩ := res
-  dsimp only at hok hi
-  subst hok
-  dsimp only
-  refine ⟨rfl, ?_⟩
-  intro id
-  rw [ids_removeAll _ _ hi.wfp, hi.ids, hi.prev]
-  simp only [List.nil_append]
+theorem WF_removeAll (prev : List (Nat × RHost)) : ∀ (r : Ring.Ring), WF r.byId → WF (removeAll r prev).byId := by
+  induction prev with
+  | nil => intro r h; exact h
+  | cons e t ih => intro r h; obtain ⟨k, v⟩ := e; exact ih _ (WF_remove r v.id h)
+
+/-- membership in the by-id index after the removals -/
+theorem mem_removeAll (prev : List (Nat × RHost)) (hw : WF prev) : ∀ (r : Ring.Ring) (e : Nat × RHost),
+    e ∈ (removeAll r prev).byId ↔ e ∈ r.byId ∧ e.1 ∉ keys prev := by
+  induction prev with
+  | nil => intro r e; simp [removeAll, keys]
+  | cons p t ih =>
+    intro r e
+    obtain ⟨k, h⟩ := p
+    have hk : h.id = k := hw (k, h) List.mem_cons_self
+    unfold removeAll
+    rw [ih (fun e he => hw e (List.mem_cons_of_mem _ he)), hk]
+    have hm : e ∈ (r.remove k).1.byId ↔ e ∈ r.byId ∧ e.1 ≠ k := by
+      unfold Ring.remove
+      split
+      · exact mem_erase _ _ _
+      · rename_i hn
+        rw [lookup_eq_none] at hn
+        exact ⟨fun h1 => ⟨h1, fun hk' => hn (hk' ▸ List.mem_map.mpr ⟨e, h1, rfl⟩)⟩, fun h1 => h1.1⟩
+    rw [hm]
+    simp only [keys, List.map_cons, List.mem_cons]
+    constructor
+    · rintro ⟨⟨h1, h2⟩, h3⟩; exact ⟨h1, fun hh => hh.elim h2 h3⟩
+    · rintro ⟨h1, h2⟩; exact ⟨⟨h1, fun hh => h2 (Or.inl hh)⟩, fun hh => h2 (Or.inr hh)⟩
+
+/-- the hosts removed by pass 1 -/
+def goneOf (r : Ring.Ring) (filter : RHost → Bool) (reported : List RHost) : List (Nat × RHost) :=
+  r.byId.filter (fun e => !stays (reportedMap filter reported) e)
+
+theorem WF_gone (r : Ring.Ring) (hw : WF r.byId) (filter : RHost → Bool) (reported : List RHost) :
+    WF (goneOf r filter reported) := fun e he => hw e (List.mem_filter.mp he).1
+
+/-- after pass 1 the ring holds exactly the hosts that stay -/
+theorem mem_pass1 (r : Ring.Ring) (hw : WF r.byId) (hn : (keys r.byId).Nodup) (filter : RHost → Bool) (reported : List RHost)
+    (e : Nat × RHost) :
+    e ∈ (removeAll r (goneOf r filter reported)).byId ↔ e ∈ r.byId ∧ stays (reportedMap filter reported) e = true := by
+  rw [mem_removeAll _ (WF_gone r hw filter reported)]
   constructor
-  · rintro ⟨h1 | h1, h2⟩
-    · by_cases h3 : id ∈ acceptedIds filter reported
-      · exact h3
-      · exact absurd ⟨h1, h3⟩ h2
+  · rintro ⟨h1, h2⟩
+    refine ⟨h1, ?_⟩
+    cases hs : stays (reportedMap filter reported) e with
+    | true => rfl
+    | false =>
+      exfalso
+      apply h2
+      exact List.mem_map.mpr ⟨e, List.mem_filter.mpr ⟨h1, by simp [hs]⟩, rfl⟩
+  · rintro ⟨h1, h2⟩
+    refine ⟨h1, ?_⟩
+    intro hk
+    obtain ⟨e', he', hk'⟩ := List.mem_map.mp hk
+    have hm := List.mem_filter.mp he'
+    have : e' = e := mem_key_unique _ hn e' e hm.1 h1 hk'
+    subst this
+    simp [h2] at hm
+
+/-! ### pass 2: the accepted hosts that are missing are added -/
+
+theorem addStep_ring (st : Ring.Ring × List RHost) (h : RHost) : (addStep st h).1 = (st.1.addIfMissing h).1 := by
+  unfold addStep
+  cases hl : lookup st.1.byId h.id with
+  | none => rw [addIfMissing_of_none _ h hl]
+  | some e => rw [addIfMissing_of_some _ h e hl]
+
+/-- the ring after pass 2 does not depend on the list of filled hosts -/
+theorem foldl_addStep_ring (l : List RHost) : ∀ (st : Ring.Ring × List RHost),
+    (l.foldl addStep st).1 = l.foldl (fun r h => (r.addIfMissing h).1) st.1 := by
+  induction l with
+  | nil => intro st; rfl
+  | cons h t ih => intro st; simp only [List.foldl_cons]; rw [ih, addStep_ring]
+
+theorem ids_addAll (l : List RHost) : ∀ (r : Ring.Ring) (id : Nat),
+    id ∈ keys (l.foldl (fun r h => (r.addIfMissing h).1) r).byId ↔ id ∈ keys r.byId ∨ id ∈ l.map (·.id) := by
+  induction l with
+  | nil => intro r id; simp
+  | cons h t ih =>
+    intro r id
+    simp only [List.foldl_cons, List.map_cons, List.mem_cons]
+    rw [ih, ids_addIfMissing]
+    constructor
+    · rintro ((h1 | h1) | h1)
+      · exact Or.inr (Or.inl h1)
+      · exact Or.inl h1
+      · exact Or.inr (Or.inr h1)
+    · rintro (h1 | h1 | h1)
+      · exact Or.inl (Or.inr h1)
+      · exact Or.inl (Or.inl h1)
+      · exact Or.inr h1
+
+theorem WF_addAll (l : List RHost) : ∀ (r : Ring.Ring), WF r.byId → WF (l.foldl (fun r h => (r.addIfMissing h).1) r).byId := by
+  induction l with
+  | nil => intro r h; exact h
+  | cons h t ih => intro r hw; exact ih _ (WF_addIfMissing r h hw)
+
+/-- the stored object of an id after pass 2: the one that was there, else the FIRST row of that id -/
+theorem lookup_addAll (l : List RHost) : ∀ (r : Ring.Ring) (id : Nat),
+    lookup (l.foldl (fun r h => (r.addIfMissing h).1) r).byId id =
+      match lookup r.byId id with
+      | some s => some s
+      | none => lookup (l.map (fun h => (h.id, h))) id := by
+  induction l with
+  | nil =>
+    intro r id
+    simp only [List.foldl_nil, List.map_nil]
+    cases hl : lookup r.byId id with
+    | none => rfl
+    | some s => rfl
+  | cons h t ih =>
+    intro r id
+    simp only [List.foldl_cons, List.map_cons]
+    rw [ih]
+    cases hl : lookup r.byId h.id with
+    | some e =>
+      rw [addIfMissing_of_some r h e hl]
+      cases hid : lookup r.byId id with
+      | some s => rfl
+      | none =>
+        dsimp only
+        have hne : h.id ≠ id := fun e' => by rw [e', hid] at hl; cases hl
+        simp [lookup, hne]
+    | none =>
+      rw [addIfMissing_of_none r h hl]
+      dsimp only
+      by_cases hk : id = h.id
+      · subst hk
+        rw [lookup_put_self, hl]
+        simp [lookup]
+      · rw [lookup_put_ne _ _ _ _ hk]
+        cases hid : lookup r.byId id with
+        | some s => rfl
+        | none =>
+          dsimp only
+          have hne : ¬ h.id = id := fun e' => hk e'.symm
+          simp [lookup, hne]
+
+/-! ### the refresh -/
+
+theorem refresh_ring (r : Ring.Ring) (filter : RHost → Bool) (reported : List RHost) :
+    (r.refresh filter reported).1 =
+      (reported.filter (fun h => !filter h)).foldl (fun r h => (r.addIfMissing h).1) (removeAll r (goneOf r filter reported)) := by
+  unfold Ring.refresh goneOf
+  dsimp only
+  rw [foldl_addStep_ring]
+
+/-- after the refresh the host ids of the ring are EXACTLY the accepted reported ids (no hypothesis on the report) -/
+theorem refresh_exact (r : Ring.Ring) (hw : WF r.byId) (filter : RHost → Bool) (reported : List RHost) :
+    ∀ id, id ∈ keys (r.refresh filter reported).1.byId ↔ id ∈ acceptedIds filter reported := by
+  intro id
+  rw [refresh_ring, ids_addAll, ids_removeAll _ _ (WF_gone r hw filter reported)]
+  show _ ∨ id ∈ acceptedIds filter reported ↔ _
+  constructor
+  · rintro (⟨h1, h2⟩ | h1)
+    · obtain ⟨e, he, rfl⟩ := List.mem_map.mp h1
+      cases hs : stays (reportedMap filter reported) e with
+      | false => exact absurd (List.mem_map.mpr ⟨e, List.mem_filter.mpr ⟨he, by simp [hs]⟩, rfl⟩) h2
+      | true =>
+        unfold stays at hs
+        cases hl : lookup (reportedMap filter reported) e.1 with
+        | none => rw [hl] at hs; cases hs
+        | some x => rw [← keys_reportedMap]; exact lookup_mem_keys _ _ _ hl
     · exact h1
-  · intro h1; exact ⟨Or.inr h1, fun hh => hh.2 h1⟩
+  · intro h1; exact Or.inr h1
+
+theorem WF_refresh (r : Ring.Ring) (hw : WF r.byId) (filter : RHost → Bool) (reported : List RHost) :
+    WF (r.refresh filter reported).1.byId := by
+  rw [refresh_ring]
+  exact WF_addAll _ _ (WF_removeAll _ r hw)
+
+/-- the stored object of a reported id carries the node address and connect address of the FIRST accepted
+row of that id (it is the object that was there when that row has its addresses, else the row's object) -/
+theorem refresh_stored (r : Ring.Ring) (hw : WF r.byId) (hn : (keys r.byId).Nodup) (filter : RHost → Bool)
+    (reported : List RHost) (id : Nat) (h : RHost) (hl : lookup (reportedMap filter reported) id = some h) :
+    ∃ s, lookup (r.refresh filter reported).1.byId id = some s ∧ s.addr = h.addr ∧ s.caddr = h.caddr ∧
+      (lookup r.byId id = some s ∨ s = h) := by
+  rw [refresh_ring, lookup_addAll]
+  cases hp : lookup (removeAll r (goneOf r filter reported)).byId id with
+  | some s =>
+    have hm := (mem_pass1 r hw hn filter reported (id, s)).mp (lookup_some_mem _ _ _ hp)
+    have hst := hm.2
+    unfold stays at hst
+    rw [hl] at hst
+    simp only [Bool.and_eq_true, beq_iff_eq] at hst
+    exact ⟨s, rfl, hst.2.symm, hst.1.symm, Or.inl (lookup_of_mem_nodup _ hn (id, s) hm.1)⟩
+  | none => exact ⟨h, hl, rfl, rfl, Or.inr rfl⟩
 
 end C16
